@@ -76,7 +76,7 @@ func (s1 jsonSet) diff(n JsonNode, path path, metadata []Metadata, strategy patc
 		case mergePatchStrategy:
 			e = DiffElement{
 				Path:      path.prependMetadataMerge(),
-				NewValues: nodeList(n),
+				NewValues: []JsonNode{n},
 			}
 		default:
 			e = DiffElement{
